@@ -726,4 +726,130 @@ def rule_childless(ctx):
     return r
 
 
-RULES = [rule_consume, rule_remain, rule_complete, rule_linearids, rule_steps, rule_childless]
+class _NoLen(Exception):
+    pass
+
+
+def _pev(e, env):
+    """partial evaluation of pure integer / tuple expressions (used for lengths only)"""
+    if isinstance(e, ast.Constant) and isinstance(e.value, (int, bool)):
+        return e.value
+    if isinstance(e, ast.Name):
+        if e.id in env:
+            return env[e.id]
+        defs = env.get("__locals__", {}).get(e.id, [])
+        if len(defs) == 1:
+            return _pev(defs[0], env)     # a single-definition local: its (pure) definition
+        raise _NoLen(f"unbound `{e.id}`")
+    if isinstance(e, ast.Tuple):
+        return tuple(_pev(x, env) for x in e.elts)
+    if isinstance(e, ast.BinOp):
+        l, r_ = _pev(e.left, env), _pev(e.right, env)
+        ops = {ast.Add: lambda a, b: a + b, ast.Sub: lambda a, b: a - b, ast.Mult: lambda a, b: a * b,
+               ast.FloorDiv: lambda a, b: a // b, ast.Mod: lambda a, b: a % b}
+        if type(e.op) in ops:
+            try:
+                return ops[type(e.op)](l, r_)
+            except Exception as ex:  # noqa
+                raise _NoLen(str(ex))
+    if isinstance(e, ast.Compare) and len(e.ops) == 1:
+        l, r_ = _pev(e.left, env), _pev(e.comparators[0], env)
+        ops = {ast.Lt: l < r_, ast.LtE: l <= r_, ast.Gt: l > r_, ast.GtE: l >= r_, ast.Eq: l == r_, ast.NotEq: l != r_} \
+            if type(e.ops[0]) in (ast.Lt, ast.LtE, ast.Gt, ast.GtE, ast.Eq, ast.NotEq) else {}
+        if type(e.ops[0]) in ops:
+            return ops[type(e.ops[0])]
+    if isinstance(e, ast.Call) and dotted(e.func) == "range" and not e.keywords:
+        return tuple(range(*[_pev(a, env) for a in e.args]))
+    if isinstance(e, ast.Call) and dotted(e.func) in ("list", "tuple") and len(e.args) == 1:
+        return tuple(_pev(e.args[0], env))
+    raise _NoLen(f"`{C.unparse(e, 40)}`")
+
+
+def _plen(e, env):
+    """number of elements of a list-valued expression under env (elements themselves need not be evaluable)"""
+    if isinstance(e, (ast.ListComp, ast.GeneratorExp)):
+        def rec(gens, env_):
+            if not gens:
+                return 1
+            g = gens[0]
+            if g.ifs:
+                raise _NoLen("filtered comprehension")
+            it = _pev(g.iter, env_)
+            tot = 0
+            for v in it:
+                e2 = dict(env_)
+                if isinstance(g.target, ast.Name):
+                    e2[g.target.id] = v
+                tot += rec(gens[1:], e2)
+            return tot
+        return rec(list(e.generators), env)
+    if isinstance(e, ast.Call) and dotted(e.func) in ("list", "tuple") and len(e.args) == 1:
+        a = e.args[0]
+        if isinstance(a, (ast.ListComp, ast.GeneratorExp)):
+            return _plen(a, env)
+        return len(_pev(a, env))
+    if isinstance(e, (ast.List, ast.Tuple)):
+        return len(e.elts)
+    raise _NoLen(f"`{C.unparse(e, 40)}`")
+
+
+def rule_labels(ctx):
+    """(seed C05_4) The tree builders pair nodes with the partitioner's labels positionally (`zip`, which
+    truncates silently): a membership list shorter than the number of nodes loses leaves (agglomerative) or
+    never resolves the sub-graph (divisive).  The partitioners' *hand-written* fallbacks — taken exactly in the
+    corner cases no test reaches — are lists whose length is partially evaluated for sample (nodes, parts)."""
+    r = RuleResult("C05-LABELS", "hand-written partition fallbacks label every node", 2)
+    samples = [(nv, pt) for nv in (3, 4, 5, 7, 8, 9) for pt in (2, 3, 4) if pt < nv]
+    n_dec = 0
+    for path in ("cotengra/pathfinders/path_kahypar.py", "cotengra/pathfinders/path_labels.py",
+                 "cotengra/pathfinders/path_igraph.py", "cotengra/pathfinders/path_kahypar_gen.py"):
+        m = ctx.p.modules.get(path)
+        if m is None:
+            continue
+        for f in m.all_funcs:
+            params = [a.arg for a in f.node.args.args]
+            if "inputs" not in params or "parts" not in params:
+                continue
+            la = ctx.r.local_assignments(f)
+            nvn = [nm for nm, vs in la.items() if any(C.unparse(v) == "len(inputs)" for v in vs)]
+            for n in walk_local(f.node):
+                if not (isinstance(n, ast.Return) and n.value is not None):
+                    continue
+                v = n.value
+                if not (isinstance(v, (ast.ListComp, ast.List)) or
+                        (isinstance(v, ast.Call) and dotted(v.func) in ("list", "tuple"))):
+                    continue
+                k = ctx.key(f, "C05-LABELS", f"return@{len([i for i in r.instances if f.qual in i.construct])}")
+                bad = None
+                try:
+                    for nv, pt in samples:
+                        env = {"parts": pt, "__locals__": la}
+                        for nm in nvn:
+                            env[nm] = nv
+                        ln = _plen(v, env)
+                        if ln != nv and bad is None:
+                            bad = (nv, pt, ln)
+                except _NoLen as e:
+                    r.exempt(k, C.loc(f, n), f"length of `{C.unparse(v, 50)}` not evaluable ({e}): not decided")
+                    continue
+                n_dec += 1
+                if bad:
+                    r.violation(k, C.loc(f, n), f"`{C.unparse(v, 70)}` has {bad[2]} labels for {bad[0]} nodes (parts = {bad[1]}): the "
+                                f"builders zip nodes with labels, so the unlabelled nodes are dropped from the tree (or the "
+                                f"sub-graph is never divided)")
+                else:
+                    r.ok(k, C.loc(f, n), f"`{C.unparse(v, 50)}` has one label per node (evaluated for {len(samples)} (nodes, parts) samples)")
+    C.require(n_dec >= 2, "fewer than two hand-written partition fallbacks were decided")
+    return r
+
+
+def rule_edgepath(ctx):
+    """Shared with C10-EDGE (seed C05_5): a path given as a sequence of indices is turned into steps by
+    `edge_path_to_ssa`; its carrier bookkeeping decides whether every tensor is consumed exactly once."""
+    from .c10 import rule_edge as src
+
+    return C.reuse_rule(ctx, src, "C10-EDGE", "C05-EDGE",
+                        "explicit index orders are converted into complete, well-formed steps", lambda i: True, 4)
+
+
+RULES = [rule_consume, rule_remain, rule_complete, rule_linearids, rule_steps, rule_childless, rule_labels, rule_edgepath]
